@@ -64,14 +64,22 @@ fn cycle_refs<T>(this: Link<T>) -> HashMap<Link<T>, usize> {
 
         let links = unsafe { node.as_ref().links().borrow() };
         for (&link, &strong) in links.iter() {
-            if let Kind::Forward | Kind::Loopback = link.kind() {
-                cycle_owned_refs
-                    .entry(link)
-                    .and_modify(|count| *count += strong)
-                    .or_insert(strong);
-                discovered.push(link);
-            } else {
-                cycle_owned_refs.entry(link.as_forward()).or_default();
+            match link.kind() {
+                Kind::Forward => {
+                    cycle_owned_refs
+                        .entry(link)
+                        .and_modify(|count| *count += strong)
+                        .or_insert(strong);
+                    discovered.push(link);
+                }
+                // Self-adoptions through the same `Rc` have no effect: they do
+                // not record an owned reference. Following a loopback link
+                // would visit `node` a second time and count all of its
+                // adoptions twice.
+                Kind::Loopback => {}
+                Kind::Backward => {
+                    cycle_owned_refs.entry(link.as_forward()).or_default();
+                }
             }
         }
     }
